@@ -1,6 +1,6 @@
 (* C22 — Transfers reproduce the source data exactly.
    Statements only; proofs live in FsTree/Proofs.v and FsTree/Verbatim.v. *)
-From SF Require Import Base.Str FsTree.Model FsTree.Proofs FsTree.Verbatim Shell.Model.
+From SF Require Import Base.Str FsTree.Model FsTree.Proofs FsTree.Cells FsTree.Verbatim Shell.Model.
 Import ListNotations.
 Local Open Scope string_scope. Local Open Scope list_scope.
 
@@ -20,41 +20,72 @@ Example C22_archive_roundtrip_ex :
   = Dir [("keep", File "k" false); ("s", Dir [("a b", File "00ff" true); ("e", Dir []); ("l", Link "a b")])].
 Proof. vm_compute. reflexivity. Qed.
 
+(* mkdir -p dst; tar x -C dst --strip-components 1 (and makedirs + copytree) = extracting the tree under the new name. *)
+Theorem C22_strip_components : forall d s es fs,
+  extract (reroot d (strip1' (members [s] (Dir es)))) (insert fs (d, MDir)) = extract (members d (Dir es)) fs.
+Proof. exact strip_extract. Qed.
+
+(* The extract_tar_stream loop (one member at a time, isdir(dst) asked of the evolving file system, relpath against the
+   source's basename, dst re-bound after a root directory lands in an existing directory) = plain extraction at the
+   registered place, for every archive of a tree and both destination states. *)
+Theorem C22_remote_to_local_loop : forall dst sname dname t',
+  (dst = None \/ exists es, dst = Some (Dir es)) ->
+  r2l dst sname dname t' = extract (members (place dst sname dname) t') (world dname dst).
+Proof. exact r2l_eq. Qed.
+
+(* Dereferencing keeps trees well formed (same names, directory by directory). *)
+Theorem C22_deref_wf : forall root, wf root -> forall fuel self t t', wf t -> deref fuel root self t = Some t' -> wf t'.
+Proof. exact wf_deref. Qed.
+
 (* The property, for the decision-table + tree-transformer model.  For every source tree t with unique names whose
    dereferenced form is t', every destination state (absent, or an existing directory without an entry named like the source),
-   writable or read-only, in every cell of the routing tables listed by [cell_proved]
-   (local->remote; same location; remote->other location when the destination is a directory or keeps the basename;
-   local->local read-only or of a regular file): the entry at the path transfer_data registers is a copy equal to t', or
-   the source tree itself (cp -rf: its links resolve to t'), or -- read-only only -- a link to the source.
-   _partial: remote->local (extract_tar_stream loop), --strip-components 1 (renamed directory), tee (renamed file) and the
-   local copytree of a directory are modelled and exercised by the correspondence but not covered by this theorem; the last
-   two are refuted below where they do not hold. *)
+   writable or read-only, every route, in every cell of the routing tables except the two refuted below ([cell_ok];
+   C22_cells_excluded says these are the only ones left out): the entry at the path transfer_data registers is a copy equal
+   to t', or the source tree itself (cp -rf: its links resolve to t'), or -- read-only only -- a link to the source.
+   _partial with respect to the property text: two cells are refuted; tools are modelled from their manuals; paths are
+   component lists; the registry is C21's. *)
 Theorem C22_transfer_partial : forall fuel r w dst sname dname t t' fs',
-  dst_ok dst sname -> wf t -> wf t' ->
+  dst_ok dst sname -> wf t ->
   deref fuel t [] t = Some t' ->
-  cell_proved r w dst sname dname t = true ->
+  cell_ok r w dst sname dname t = true ->
   transfer fuel r w dst sname dname t = Some fs' ->
   exists c, lookup fs' (place dst sname dname) = Some c /\ copy_ok w t t' c.
-Proof. exact transfer_core. Qed.
+Proof. exact transfer_all. Qed.
+
+Theorem C22_cells_excluded : forall r w dst sname dname t,
+  cell_ok r w dst sname dname t = false ->
+  (r = LL /\ w = true /\ is_dir_t t = true /\ is_dir dst = true) \/
+  (r = RRother /\ is_dir dst = false /\ String.eqb sname dname = false /\ is_dir_t t = false /\ plain_file t = false).
+Proof. exact cells_excluded. Qed.
 
 Example C22_transfer_ex :
   let t := Dir [("a", File "00ff" true); ("l", Link "a"); ("sub", Dir [("up", Link "../a")])] in
   let t' := Dir [("a", File "00ff" true); ("l", File "00ff" true); ("sub", Dir [("up", File "00ff" true)])] in
   deref FUEL t [] t = Some t' /\ wf t /\ wf t' /\ dst_ok (Some (Dir [("zz", File "k" false)])) "s"
-  /\ cell_proved RRother false (Some (Dir [("zz", File "k" false)])) "s" "d" t = true
-  /\ transfer FUEL RRother false (Some (Dir [("zz", File "k" false)])) "s" "d" t
+  /\ cell_ok RL false (Some (Dir [("zz", File "k" false)])) "s" "d" t = true
+  /\ transfer FUEL RL false (Some (Dir [("zz", File "k" false)])) "s" "d" t
      = Some (Dir [("d", Dir [("zz", File "k" false); ("s", t')])]).
 Proof.
   vm_compute. repeat split; try (repeat constructor; simpl; intuition discriminate).
   right. eexists. split; [reflexivity|]. simpl. intuition discriminate.
 Qed.
 
+Example C22_transfer_strip_ex :
+  cell_ok RRother true None "s" "other" (Dir [("a", File "x" true)]) = true /\
+  transfer FUEL RRother true None "s" "other" (Dir [("a", File "x" true)]) = Some (Dir [("other", Dir [("a", File "x" true)])]).
+Proof. vm_compute. split; reflexivity. Qed.
+
+Example C22_transfer_tee_ex :
+  cell_ok RRother false None "s" "other" (File "x" false) = true /\
+  transfer FUEL RRother false None "s" "other" (File "x" false) = Some (Dir [("other", File "x" false)]).
+Proof. vm_compute. split; reflexivity. Qed.
+
 (* What was in an existing destination directory under another name is still there afterwards. *)
 Theorem C22_frame : forall fuel r w es sname dname t fs' m,
-  m <> sname -> cell_proved r w (Some (Dir es)) sname dname t = true ->
+  m <> sname -> cell_ok r w (Some (Dir es)) sname dname t = true ->
   transfer fuel r w (Some (Dir es)) sname dname t = Some fs' ->
   lookup fs' [dname; m] = lookup1 m es.
-Proof. exact transfer_frame. Qed.
+Proof. exact transfer_frame_all. Qed.
 
 (* Refuted cells (each replayed on the real code, see known/C22.txt). *)
 Theorem C22_exec_bit_refuted :
@@ -87,7 +118,11 @@ Proof. exact blank_not_verbatim. Qed.
 
 Print Assumptions C22_extract_members.
 Print Assumptions C22_archive_roundtrip.
+Print Assumptions C22_strip_components.
+Print Assumptions C22_remote_to_local_loop.
+Print Assumptions C22_deref_wf.
 Print Assumptions C22_transfer_partial.
+Print Assumptions C22_cells_excluded.
 Print Assumptions C22_frame.
 Print Assumptions C22_exec_bit_refuted.
 Print Assumptions C22_local_merge_refuted.
